@@ -1,8 +1,8 @@
 \* generated by props/_handshake.py (table CFGS) -- do not edit by hand
 SPECIFICATION Spec
 CONSTANTS
-  Nodes <- NodesM
-  Conns <- ConnsM
+  Nodes = {"A", "B"}
+  Conns = {"c1", "c3"}
   Cl <- ClM
   Sv <- SvM
   Eph <- EphM
